@@ -140,14 +140,12 @@ class ChargingPriceUpdate(SimulationUpdateFunction):
             # apply update to all stations
             # if these updates are in the form of GeoIds, map them to StationIds
             as_station_updates = _map_to_station_ids(charger_update, sim_state)
-            station_ids_to_update = set(sim_state.get_station_ids()).union(
-                as_station_updates.keys()
-            )
 
-            # we are applying only the updates related to valid StationIds with updates
+            # we are applying only the updates related to valid StationIds with updates;
+            # a station this update does not mention keeps its prices
             result = ft.reduce(
                 lambda sim, s_id: _update_station_prices(sim, s_id, as_station_updates[s_id]),
-                station_ids_to_update,
+                sorted(as_station_updates.keys()),
                 sim_state,
             )
             return result, self
